@@ -345,11 +345,20 @@ def cell_class(flags, filed, source, special):
 
 def run_reject_case(a):
     cli, kind, source = a
+    # "<kind>+forced-by-flag" / "+forced-by-file": the rejected run is a forced one, and the output directory holds the files and the
+    # record of an earlier good run — rejected "before anything is written" covers that record as well
+    forced = None
+    if "+forced-by-" in kind:
+        kind, forced = kind.split("+forced-by-")
     root = common.scratch("c19r")
     try:
         app = os.path.join(root, "app")
         make_project(os.path.join(app, "src-tauri"), "from_default_project")
-        argv = [cli, "tauri-typegen", "generate"]
+        if forced:
+            r0 = common.run([cli, "tauri-typegen", "generate", "-p", "./src-tauri", "-o", "./gen"], cwd=app)
+            if r0.rc != 0 or not os.path.exists(os.path.join(app, "gen", ".typecache")):
+                return {"viol": [], "label": "%s via %s (earlier good run failed: inconclusive)" % (kind, source)}
+        argv = [cli, "tauri-typegen", "generate"] + (["--force"] if forced == "flag" else [])
         cfg = {}
         if kind == "bad-validation-flag":
             argv += ["-v", "yup"]
@@ -397,12 +406,14 @@ def run_reject_case(a):
         elif kind == "file-validation-bad-but-flag-valid":
             cfg = {"validation_library": "joi"}
             argv += ["-v", "zod"]
+        if forced == "file":
+            cfg = dict(cfg, force=True)
         if cfg:
             if source == "-c":
                 json.dump(cfg, open(os.path.join(app, "c.json"), "w"))
                 argv += ["-c", "c.json"]
             else:
-                camel = {"validationLibrary": cfg.get("validation_library"), "projectPath": cfg.get("project_path")}
+                camel = {"validationLibrary": cfg.get("validation_library"), "projectPath": cfg.get("project_path"), "force": cfg.get("force")}
                 json.dump({"plugins": {"typegen": {k: v for k, v in camel.items() if v is not None}}}, open(os.path.join(app, "tauri.conf.json"), "w"))
         if kind.startswith("init-"):
             # the same rejections on the `init` entry path, which writes a configuration document before it generates:
@@ -433,7 +444,9 @@ def run_reject_case(a):
         d = fsmon.diff(before, after)
         viol = []
         changed = d["created"] + d["deleted"] + d["modified"]
-        label = "%s via %s" % (kind, source)
+        label = "%s via %s%s" % (kind, source, " forced by " + forced if forced else "")
+        if forced:
+            kind = kind + "+forced-by-" + forced
         if kind.endswith("flag-valid"):
             # flag > file: the invalid file value is overridden, so the run must succeed and write into ./gen
             if r.rc != 0 or not os.path.exists(os.path.join(app, "gen", "commands.ts")):
@@ -620,6 +633,8 @@ def run(tier):
     rjobs += [(cli, kind, source) for kind in ("init-bad-validation", "init-bad-validation-case-variant", "init-missing-project", "init-refused-existing-file") for source in ("tauri.conf.json", "-c")]
     rjobs += [(cli, "%sunreachable-project-%s-%s" % (pre, why, via), source) for why in ("below-a-file", "through-a-link-loop", "overlong-component")
               for (pre, via) in (("", "flag"), ("", "file"), ("init-", "flag")) for source in ("tauri.conf.json", "-c")]
+    rjobs += [(cli, "%s+forced-by-%s" % (kind, how), source) for kind in ("bad-validation-flag", "bad-validation-file", "missing-project-flag", "missing-project-file")
+              for how in ("flag", "file") for source in ("tauri.conf.json", "-c")]
     rjobs += [(cli, kind, source) for kind in ("bad-validation-case-variant-flag", "bad-validation-case-variant-file", "bad-validation-case-variant-no-commands") for source in ("tauri.conf.json", "-c")]
     for (job, r) in zip(rjobs, common.pmap(run_reject_case, rjobs)):
         v.case(("reject", job[1], job[2]), nontrivial=True, sample={"kind": "rejection", "case": r["label"]} if len(v.samples) < 8 else None)
